@@ -40,6 +40,10 @@ replace github.com/magefile/mage => %s
 # code before that commit (kept in the model for C09_clean_before_repair_refuted).
 CLEANUP_AFTER_FAILED_GENERATION = True
 
+# With HOME and MAGEFILE_CACHE unset (and the go tool still usable) mage puts its binary cache into ./.magefile, i.e. into the
+# magefile directory.  The run is made and recorded in the evidence; it is judged by the oracle only when this is True.
+JUDGE_HOME_UNSET_CACHE = False
+
 STEPS = ["RemoveStale", "ListMage", "ListNonMage", "CheckFiles", "HashFiles", "GoVersion", "GoEnvGocache", "StatExe",
          "Parse", "GoListDir", "GoListFiles", "Dupes", "CreateMain", "WriteMain", "CloseMain", "Chtimes", "RegisterDefer",
          "DbgVersion", "DbgEnv", "GoBuild", "RemoveMain", "CompileExit", "ExecBinary", "TargetOutcome"]
@@ -201,7 +205,7 @@ def fs_term(s):
 def scenario(id, **kw):
     sc = {"id": id, "layout": "flat", "with_import": True, "mutation": None, "args": ["build"], "fail": None, "plan": "",
           "keep": False, "hashfast": False, "prewarm": False, "force": False, "compile": False, "debug": False,
-          "leftover": None, "leftover_where": "top", "crash": None, "enospc": None, "ref": None, "special": False}
+          "leftover": None, "leftover_where": "top", "crash": None, "enospc": None, "envfault": None, "ref": None, "special": False}
     sc.update(kw)
     return sc
 
@@ -317,6 +321,26 @@ def build_scenarios(rng, gen, quick):
     if not quick:
         A(scenario("enospc-0-keep", enospc=0, keep=True))
         A(scenario("enospc-8192-hash", enospc=8192, hashfast=True))
+    # K: the ENVIRONMENT makes the run fail (nothing is injected into mage or the go tool): the cache directory cannot be
+    # created or written, the place of the executable is taken, the working directory is missing, the magefile directory is
+    # read-only, HOME is unset.  In the code that exists each of them surfaces at one of the modelled steps (ENVFAULT_STEP).
+    for ef in ("cache-parent-file", "cache-is-file", "cache-full", "cache-parent-ro", "workdir-missing", "exe-is-dir", "proj-ro", "home-unset"):
+        A(scenario("env-" + ef, envfault=ef, prewarm=(ef == "exe-is-dir")))
+    A(scenario("env-cache-parent-file-hash", envfault="cache-parent-file", hashfast=True))
+    A(scenario("env-cache-is-file-hash", envfault="cache-is-file", hashfast=True))
+    A(scenario("env-exe-is-dir-hash", envfault="exe-is-dir", hashfast=True, prewarm=True))
+    A(scenario("env-cache-parent-file-keep", envfault="cache-parent-file", keep=True))
+    A(scenario("env-cache-parent-file-list", envfault="cache-parent-file", args=["-l"]))
+    A(scenario("env-home-unset-gocache", envfault="home-unset-gocache", special=True))
+    if not quick:
+        A(scenario("env-cache-full-hash", envfault="cache-full", hashfast=True))
+        A(scenario("env-cache-parent-ro-hash", envfault="cache-parent-ro", hashfast=True))
+        A(scenario("env-workdir-missing-hash-cached", envfault="workdir-missing", hashfast=True, prewarm=True))
+        A(scenario("env-proj-ro-keep", envfault="proj-ro", keep=True))
+        A(scenario("env-cache-is-file-mfdir", envfault="cache-is-file", layout="mfdir"))
+        A(scenario("env-cache-parent-file-debug", envfault="cache-parent-file", debug=True))
+        for ef in ("cache-parent-file", "cache-is-file", "workdir-missing"):
+            A(scenario("left-prefix:0@env-" + ef, envfault=ef, leftover={"kind": "file", "b64": "", "label": "prefix:0"}, ref="env-" + ef))
     seen, out = set(), []
     for s in S:                      # the random picks may name the same scenario twice
         if s["id"] not in seen:
@@ -353,6 +377,8 @@ def mage_args(sc, outbin):
         a.append("-debug")
     if sc["compile"]:
         a += ["-compile", outbin]
+    if sc.get("envfault") == "workdir-missing":
+        a += ["-w", os.path.join(os.path.dirname(outbin), "no-such-workdir")]
     return a + list(sc["args"])
 
 
@@ -383,17 +409,45 @@ def run_scenario(mage, tools, sc, files, workdir):
     os.makedirs(cache)
     log = os.path.join(workdir, "go.log")
     outbin = os.path.join(workdir, "out.bin")
-    if sc["enospc"] is not None:
+    ef = sc.get("envfault")
+    if sc["enospc"] is not None or ef in ("cache-full", "cache-parent-ro", "proj-ro"):
         return run_enospc(mage, tools, sc, files, workdir)
     write_tree(d, files)
     if sc["prewarm"]:
-        pre = dict(sc, plan="", fail=None, keep=False, force=False, leftover=None)
+        pre = dict(sc, plan="", fail=None, keep=False, force=False, leftover=None, envfault=None)
         r0 = mage.run(d, ["build"], env=run_env(pre, tools, os.path.join(workdir, "pre.log")), cache=cache)
         if r0["rc"] != 0:
             raise BuildError("prewarm run failed: " + r0["err"][-500:])
+    if ef == "cache-parent-file":
+        with open(os.path.join(workdir, "blocker"), "w") as fh:
+            fh.write("a regular file where a directory is expected\n")
+        cache = os.path.join(workdir, "blocker", "cache")
+    elif ef == "cache-is-file":
+        cache = os.path.join(workdir, "cachefile")
+        with open(cache, "w") as fh:
+            fh.write("a regular file where the cache directory is expected\n")
+    elif ef == "exe-is-dir":
+        for n in os.listdir(cache):                 # the place of the executable is taken by a directory
+            p = os.path.join(cache, n)
+            if os.path.isfile(p):
+                os.remove(p)
+                os.makedirs(p)
+                with open(os.path.join(p, "inner.txt"), "w") as fh:
+                    fh.write("x\n")
     place_leftover(d, sc)
-    ob = {"before": snap(d), "before_h": tree_hash(d), "exe_cached": cache_has_files(cache)}
+    ob = {"before": snap(d), "before_h": tree_hash(d), "exe_cached": cache_has_files(cache) or (ef == "exe-is-dir" and sc["hashfast"])}
     args = mage_args(sc, outbin)
+    if ef in ("home-unset", "home-unset-gocache"):
+        e = mage.env(run_env(sc, tools, log), cache)
+        e.pop("HOME", None)
+        e.pop("MAGEFILE_CACHE", None)
+        e.pop("XDG_CACHE_HOME", None)
+        if ef == "home-unset-gocache":
+            e.update(tools["goenv"])                # the go tool itself keeps working (GOCACHE, GOPATH, GOMODCACHE given)
+        p = subprocess.run([mage.bin] + args, cwd=d, env=e, stdin=subprocess.DEVNULL, stdout=subprocess.PIPE, stderr=subprocess.PIPE, timeout=180)
+        ob.update(rc=p.returncode, out=p.stdout.decode("utf-8", "replace"), err=p.stderr.decode("utf-8", "replace"), log=read_log(log),
+                  after=snap(d), after_h=tree_hash(d))
+        return ob
     if sc["crash"]:
         gate = os.path.join(workdir, "gate")
         plan = ("block:%s:%s" % (sc["crash"], gate)) if not sc["crash"].startswith("random") else ""
@@ -438,8 +492,11 @@ def run_scenario(mage, tools, sc, files, workdir):
 
 def run_enospc(mage, tools, sc, files, workdir):
     """the project on a tmpfs with exactly sc['enospc'] free bytes, inside a private mount namespace"""
-    req = {"files": files_to_json(files), "workdir": workdir, "free": sc["enospc"], "mage": mage.bin,
-           "env": mage.env(run_env(sc, tools, os.path.join(workdir, "go.log")), os.path.join(workdir, "cache")), "args": mage_args(sc, "")}
+    ef = sc.get("envfault")
+    cache = os.path.join(workdir, "rodir", "cache") if ef == "cache-parent-ro" else os.path.join(workdir, "cache")
+    req = {"files": files_to_json(files), "workdir": workdir, "free": sc["enospc"] if sc["enospc"] is not None else 0, "mode": ef or "proj-full",
+           "mage": mage.bin, "env": mage.env(run_env(sc, tools, os.path.join(workdir, "go.log")), cache),
+           "args": mage_args(sc, os.path.join(workdir, "out.bin"))}
     rq = os.path.join(workdir, "req.json")
     with open(rq, "w") as fh:
         json.dump(req, fh)
@@ -458,24 +515,46 @@ def run_enospc(mage, tools, sc, files, workdir):
 
 def enospc_helper(rq):
     req = json.load(open(rq))
+    mode = req.get("mode", "proj-full")
     d = os.path.join(req["workdir"], "proj")
     os.makedirs(d)
     subprocess.run(["mount", "--make-rprivate", "/"], stderr=subprocess.DEVNULL)
-    r = subprocess.run(["mount", "-t", "tmpfs", "-o", "size=512k", "tmpfs", d], stderr=subprocess.PIPE)
-    if r.returncode != 0:
-        sys.stderr.write(r.stderr.decode())
-        sys.exit(3)
-    write_tree(d, files_from_json(req["files"]))
-    # fill the file system until exactly `free` bytes are left
-    filler = os.path.join(d, "filler.bin")
-    with open(filler, "wb") as fh:
-        while True:
-            st = os.statvfs(d)
-            avail = st.f_bavail * st.f_frsize
-            if avail <= req["free"]:
-                break
-            fh.write(b"\0" * min(4096, avail - req["free"]))
-            fh.flush()
+
+    def must(cmd):
+        r = subprocess.run(cmd, stderr=subprocess.PIPE)
+        if r.returncode != 0:
+            sys.stderr.write(r.stderr.decode())
+            sys.exit(3)
+
+    def fill(mp, free):
+        # fill the file system until exactly `free` bytes are left
+        with open(os.path.join(mp, "filler.bin"), "wb") as fh:
+            while True:
+                st = os.statvfs(mp)
+                avail = st.f_bavail * st.f_frsize
+                if avail <= free:
+                    break
+                fh.write(b"\0" * min(4096, avail - free))
+                fh.flush()
+    if mode == "proj-full":                          # the magefile directory is on a full file system
+        must(["mount", "-t", "tmpfs", "-o", "size=512k", "tmpfs", d])
+        write_tree(d, files_from_json(req["files"]))
+        fill(d, req["free"])
+    else:
+        write_tree(d, files_from_json(req["files"]))
+        if mode == "cache-full":                     # the cache directory is on a full file system
+            c = os.path.join(req["workdir"], "cache")
+            os.makedirs(c, exist_ok=True)
+            must(["mount", "-t", "tmpfs", "-o", "size=512k", "tmpfs", c])
+            fill(c, 0)
+        elif mode == "cache-parent-ro":              # the cache directory does not exist and its parent is read-only
+            ro = os.path.join(req["workdir"], "rodir")
+            os.makedirs(ro, exist_ok=True)
+            must(["mount", "--bind", ro, ro])
+            must(["mount", "-o", "remount,ro,bind", ro])
+        elif mode == "proj-ro":                      # the magefile directory itself is read-only
+            must(["mount", "--bind", d, d])
+            must(["mount", "-o", "remount,ro,bind", d])
     st = os.statvfs(d)
     ob = {"free_before": st.f_bavail * st.f_frsize, "before": snap(d), "before_h": tree_hash(d)}
     p = subprocess.run([req["mage"]] + req["args"], cwd=d, env=req["env"], stdin=subprocess.DEVNULL, stdout=subprocess.PIPE, stderr=subprocess.PIPE, timeout=120)
@@ -511,6 +590,19 @@ def step_of_log(entries, compile_mode):
     return steps
 
 
+# where an environment fault surfaces in the code that exists (the oracle does not use this: it only hashes the directory)
+ENVFAULT_STEP = {
+    "cache-parent-file": "GoBuild",      # go build -o <file>/cache/<hash>: mkdir ... not a directory
+    "cache-is-file": "GoBuild",          # go build -o <file>/<hash>
+    "cache-full": "GoBuild",             # go build cannot write the executable (ENOSPC)
+    "cache-parent-ro": "GoBuild",        # go build cannot create the cache directory (EROFS)
+    "home-unset": "GoBuild",             # cache = ./.magefile; the go tool has no build cache: go build fails (go env GOCACHE prints "off")
+    "workdir-missing": "ExecBinary",     # exec: chdir to the -w directory fails
+    "exe-is-dir": "ExecBinary",          # exec of a directory: permission denied (reused in hash mode, written into by go build otherwise)
+    "proj-ro": "CreateMain",             # os.Create in a read-only directory (EROFS)
+}
+
+
 def expected_faults(sc, reflog, tcode):
     f = []
     m = sc["mutation"]
@@ -529,6 +621,8 @@ def expected_faults(sc, reflog, tcode):
             f.append("ExecBinary")
     if sc["enospc"] is not None:
         f.append("WriteMain")
+    if sc.get("envfault") in ENVFAULT_STEP:
+        f.append(ENVFAULT_STEP[sc["envfault"]])
     if tcode:
         f.append("TargetOutcome")
     return f
@@ -744,6 +838,8 @@ def run(ctx):
     quick = ctx.quick
     mage = projlib.Mage(ctx)
     tools = {"fakego": go_build_harness(ctx, "fakego", tags=None), "realgo": shutil.which("go")}
+    rc_, o_, _ = sh(["go", "env", "GOCACHE", "GOPATH", "GOMODCACHE"], env=goenv(), timeout=60)
+    tools["goenv"] = dict(zip(["GOCACHE", "GOPATH", "GOMODCACHE"], o_.splitlines())) if rc_ == 0 else {}
     unitrun = go_build_harness(ctx, "unitrun")
     cov = ctx.coverage
     work = os.path.join(ctx.tmp, "sc")
@@ -832,7 +928,7 @@ def run(ctx):
         return (sc["layout"], sc["with_import"], sc["hashfast"], sc["compile"], sc["debug"])
     for s in scs:
         o = obs[s["id"]]
-        if not s["plan"] and not s["mutation"] and not s["leftover"] and not s["crash"] and s["enospc"] is None and not s["prewarm"] and o.get("rc") == 0:
+        if not s["plan"] and not s["mutation"] and not s["leftover"] and not s["crash"] and s["enospc"] is None and not s["prewarm"] and not s.get("envfault") and o.get("rc") == 0:
             reflogs.setdefault(cfg(s), o["log"])
     missing = [s for s in scs if "failnth" in s["plan"] and cfg(s) not in reflogs]
     for s in missing:
@@ -899,6 +995,15 @@ def run(ctx):
             items.append(invoke_case(dict(sc, keep=False), nx, [], imports, 0, gen_tok, "partial", (True, True, True)))
             meta.append((sc, "after-crash"))
             dist["leftover"]["after-kill"] = dist["leftover"].get("after-kill", 0) + 1
+            continue
+        if sc.get("envfault") == "home-unset-gocache":
+            # HOME and MAGEFILE_CACHE unset: mg.CacheDir() is the RELATIVE path ".magefile", the binary cache is created inside the
+            # directory mage was started in.  Observed and reported, not judged (JUDGE_HOME_UNSET_CACHE) and not modelled.
+            ch = sorted(p for p in set(ob["before_h"]) | set(ob["after_h"]) if ob["before_h"].get(p) != ob["after_h"].get(p))
+            notes.append({"scenario": sc["id"], "exit": ob["rc"], "changed_paths": ch[:4]})
+            if JUDGE_HOME_UNSET_CACHE:
+                for c in oracle_run(dict(sc, special=False), ob, None, None):
+                    ctx.violation({"kind": "oracle", "clause": c, "scenario": sc["id"]}, case=case)
             continue
         tcode = tcode_of(sc)
         faults = expected_faults(sc, reflogs.get(cfg(sc), []), tcode)
@@ -1045,7 +1150,7 @@ def run(ctx):
         if h in seen:
             continue
         seen.add(h)
-        if kind == "initclean" or kind == "listgen" or (sc and (sc["leftover"] or sc["plan"] or sc["mutation"] or sc["fail"] or sc["crash"] or sc["keep"] or sc["enospc"] is not None or sc["hashfast"] or sc["compile"])):
+        if kind == "initclean" or kind == "listgen" or (sc and (sc["leftover"] or sc["plan"] or sc["mutation"] or sc["fail"] or sc["crash"] or sc["keep"] or sc["enospc"] is not None or sc.get("envfault") or sc["hashfast"] or sc["compile"])):
             nontriv += 1
     cov["distinct_nontrivial"] = nontriv
     cov["rule"] = ("one case = one run of the real mage binary (or -init/-clean, or the go/build verdict on the generated file) with the directory hashed before and "
@@ -1057,7 +1162,9 @@ def run(ctx):
     cov["generated_file_bytes"] = n
     cov["special_leftovers_observed_not_judged"] = notes
     cov.setdefault("enospc", "%d runs on a full tmpfs" % enospc_done)
-    cov["not_injected"] = ["HashFiles", "CreateMain (other than a directory of that name)", "CloseMain", "Chtimes", "os.Remove failing"]
+    cov["not_injected"] = ["HashFiles", "CloseMain", "Chtimes", "os.Remove failing"]
+    cov["environment_faults"] = {s["id"]: [obs[s["id"]].get("rc"), stage_of(obs[s["id"]]) if obs[s["id"]].get("rc") is not None else obs[s["id"]].get("skipped", "?")[:80]]
+                                 for s in scs if s.get("envfault")}
     for sc in scs[:3]:
         o = obs[sc["id"]]
         ctx.sample({"scenario": sc["id"], "exit": o.get("rc"), "go_calls": o.get("log"), "stage": stage_of(o) if o.get("rc") is not None else None})
